@@ -53,8 +53,9 @@ type ServerSide struct {
 	StallAt int64 // reader stops reading at this offset (send buffer fills up)
 	// SlowAt/SlowFor: a healthy but slow collector: at this offset it pauses reading for SlowFor,
 	// then drains everything (not a fault: nothing may be lost because of it)
-	SlowAt  int64
-	SlowFor time.Duration
+	SlowAt      int64
+	SlowFor     time.Duration
+	eofWithData bool
 	// Discarded: bytes the client's kernel threw away at close (SO_LINGER 0)
 	Discarded []byte
 
@@ -497,16 +498,24 @@ func (c *TCPConn) Read(b []byte) (int, error) {
 	if n < len(b) && n < avail {
 		simrt.Probe("read_fragmented")
 	}
+	if s.eofWithData && s.toClientEOF && s.rdPos == len(s.ToClient) {
+		// the io.Reader contract lets the last bytes arrive together with io.EOF (crypto/tls
+		// connections and many in-memory ones do that)
+		simrt.Probe("read_last_bytes_with_eof")
+		return n, io.EOF
+	}
 	return n, nil
 }
 
-// Feed queues bytes for the client to read; end: 0 = more may come (reads block), 1 = EOF after them, 2 = reset after them.
+// Feed queues bytes for the client to read; end: 0 = more may come (reads block), 1 = EOF after
+// them, 2 = reset after them, 3 = EOF reported together with the last bytes.
 //
 //go:norace
 func (s *ServerSide) Feed(b []byte, end int) {
 	s.ToClient = append(s.ToClient, b...)
-	s.toClientEOF = end == 1
+	s.toClientEOF = end == 1 || end == 3
 	s.toClientRST = end == 2
+	s.eofWithData = end == 3
 }
 
 // Delivered returns how many fed bytes the client has consumed.
